@@ -37,6 +37,7 @@ SIG_D8 = "Mps.evolve:prop_and_compress_tdrk:input-canonicalised-compressed-in-pl
 REL = 1e-9      # 'equal up to rounding' for re-gauged inputs: |d repr| <= REL * |repr| (+ tiny absolute)
 SEEN = {}
 TIMES = {}
+SLOW = []
 
 
 # ------------------------------------------------------------------------------------ snapshots
@@ -545,8 +546,20 @@ def chain_ops(env):
         kw = dict(adaptive=adaptive, guess_dt=dt / 2)
         if method == "prop_and_compress_tdrk":
             kw["rk_solver"] = "RKF45" if adaptive else str(rng.choice(["C_RK4", "Heun_RK2", "Forward_Euler"]))
-        if method in ("tdvp_mu_vmf", "tdvp_vmf", "tdvp_mu_cmf") and rng.random() < 0.3:
+        if method in ("tdvp_mu_vmf", "tdvp_vmf") and rng.random() < 0.3:
             kw["ivp_solver"] = "RK45"
+        if method == "tdvp_mu_cmf":
+            # the Krylov solver of the CMF scheme is handed an anti-Hermitian generator in real time (D7, C09's
+            # business) and may need very many iterations: keep real-time Krylov steps tiny
+            if imag:
+                kw["ivp_solver"] = "krylov" if rng.random() < 0.7 else "RK45"
+            elif rng.random() < 0.75:
+                kw["ivp_solver"] = "RK45"
+            else:
+                kw["ivp_solver"] = "krylov"
+                step = 0.01
+                dt = step
+                kw["guess_dt"] = dt / 2
         # the caller's own writes (configuration) happen before the snapshot
         S.evolve_config = EvolveConfig(getattr(EvolveMethod, method), **kw)
         mode = int(rng.integers(0, 3))
@@ -629,6 +642,8 @@ def run_chain_call(run, env, thunk):
         exc = e
         result = None
     TIMES[name] = TIMES.get(name, 0.0) + time.time() - tc
+    if time.time() - tc > 2.0:
+        SLOW.append((name, round(time.time() - tc, 1), dict(extra), [int(b) for b in env.objs[args[0]].bond_dims], env.kind))
     run.count(f"op:{name}")
     after = {k: Snap(v) for k, v in env.objs.items()}
     if exc is not None:
